@@ -50,6 +50,7 @@ type Behav struct {
 	Cause   string
 	Entered chan struct{} // closed when the handler is entered (if non-nil)
 	Delay   time.Duration // the handler takes this long
+	ResPad  int           // > 0: the result carries a padding of this many bytes
 }
 
 // App is the instrumented application code shared by the drivers.
@@ -132,6 +133,9 @@ func (a *App) handle(kind string, sessName string, seq int32, method string, met
 		return nil, erpc.NewStatus(b.Code, b.Msg, b.Cause)
 	}
 	a.Rec.Emit("HExit", "h", h, "s", sessName, "seq", seq, "outcome", "ok", "res", F(tag))
+	if b != nil && b.ResPad > 0 {
+		return &Res{Tag: F(tag), Pad: strings.Repeat("x", b.ResPad)}, nil
+	}
 	return &Res{Tag: F(tag), Pad: arg.Pad}, nil
 }
 
